@@ -567,18 +567,18 @@ class Channel(ClosingContextManager):
 
         .. versionadded:: 1.1
         """
-        data = bytes()
         self.lock.acquire()
         try:
             old = self.combine_stderr
             self.combine_stderr = combine
             if combine and not old:
-                # copy old stderr buffer into primary buffer
+                # copy old stderr buffer into primary buffer (still holding
+                # the lock, so newer stderr data can't overtake it)
                 data = self.in_stderr_buffer.empty()
+                if len(data) > 0:
+                    self._feed(data)
         finally:
             self.lock.release()
-        if len(data) > 0:
-            self._feed(data)
         return old
 
     # ...socket API...
@@ -1067,10 +1067,15 @@ class Channel(ClosingContextManager):
                 m.add_int(ack)
                 self.transport._send_user_message(m)
             return
-        if self.combine_stderr:
-            self._feed(s)
-        else:
-            self.in_stderr_buffer.feed(s)
+        # the lock orders this against a concurrent set_combine_stderr
+        self.lock.acquire()
+        try:
+            if self.combine_stderr:
+                self._feed(s)
+            else:
+                self.in_stderr_buffer.feed(s)
+        finally:
+            self.lock.release()
 
     def _window_adjust(self, m):
         nbytes = m.get_int()
